@@ -1950,9 +1950,9 @@ seq_t dtw_warping_paths_affinity_ndim(seq_t *wps,
                 d += SEDIST(s1[ri_idx + d_i], s2[ci_idx + d_i]);
             }
             d = exp(-gamma * d);
-            dtw_prev = MAX3(wps[ri_width  + wpsi -1] - p.penalty,
+            dtw_prev = MAX3(wps[ri_width  + wpsi -1] - settings->penalty,
                             wps[ri_widthp + wpsi -1], // diagonal
-                            wps[ri_widthp + wpsi   ] - p.penalty);
+                            wps[ri_widthp + wpsi   ] - settings->penalty);
             if (d < tau) {
                 dtw_prev = delta + delta_factor * dtw_prev;
             } else {
@@ -1996,9 +1996,9 @@ seq_t dtw_warping_paths_affinity_ndim(seq_t *wps,
                 d += SEDIST(s1[ri_idx + d_i], s2[ci_idx + d_i]);
             }
             d = exp(-gamma * d);
-            dtw_prev = MAX3(wps[ri_width  + wpsi -1] - p.penalty,
+            dtw_prev = MAX3(wps[ri_width  + wpsi -1] - settings->penalty,
                             wps[ri_widthp + wpsi -1], // diagonal
-                            wps[ri_widthp + wpsi   ] - p.penalty);
+                            wps[ri_widthp + wpsi   ] - settings->penalty);
             if (d < tau) {
                 dtw_prev = delta + delta_factor * dtw_prev;
             } else {
@@ -2042,9 +2042,9 @@ seq_t dtw_warping_paths_affinity_ndim(seq_t *wps,
                 d += SEDIST(s1[ri_idx + d_i], s2[ci_idx + d_i]);
             }
             d = exp(-gamma * d);
-            dtw_prev = MAX3(wps[ri_width  + wpsi -1] - p.penalty,
+            dtw_prev = MAX3(wps[ri_width  + wpsi -1] - settings->penalty,
                             wps[ri_widthp + wpsi   ], // diagonal
-                            wps[ri_widthp + wpsi +1] - p.penalty);
+                            wps[ri_widthp + wpsi +1] - settings->penalty);
             if (d < tau) {
                 dtw_prev = delta + delta_factor * dtw_prev;
             } else {
@@ -2102,9 +2102,9 @@ seq_t dtw_warping_paths_affinity_ndim(seq_t *wps,
                 d += SEDIST(s1[ri_idx + d_i], s2[ci_idx + d_i]);
             }
             d = exp(-gamma * d);
-            dtw_prev = MAX3(wps[ri_width  + wpsi -1] - p.penalty,
+            dtw_prev = MAX3(wps[ri_width  + wpsi -1] - settings->penalty,
                             wps[ri_widthp + wpsi -1], // diagonal
-                            wps[ri_widthp + wpsi   ] - p.penalty);
+                            wps[ri_widthp + wpsi   ] - settings->penalty);
             if (d < tau) {
                 dtw_prev = delta + delta_factor * dtw_prev;
             } else {
@@ -2296,9 +2296,9 @@ seq_t dtw_warping_paths_affinity_ndim_euclidean(seq_t *wps,
             }
             d = sqrt(d);
             d = exp(-gamma * d);
-            dtw_prev = MAX3(wps[ri_width  + wpsi -1] - p.penalty,
+            dtw_prev = MAX3(wps[ri_width  + wpsi -1] - settings->penalty,
                             wps[ri_widthp + wpsi -1], // diagonal
-                            wps[ri_widthp + wpsi   ] - p.penalty);
+                            wps[ri_widthp + wpsi   ] - settings->penalty);
             if (d < tau) {
                 dtw_prev = delta + delta_factor * dtw_prev;
             } else {
@@ -2343,9 +2343,9 @@ seq_t dtw_warping_paths_affinity_ndim_euclidean(seq_t *wps,
             }
             d = sqrt(d);
             d = exp(-gamma * d);
-            dtw_prev = MAX3(wps[ri_width  + wpsi -1] - p.penalty,
+            dtw_prev = MAX3(wps[ri_width  + wpsi -1] - settings->penalty,
                             wps[ri_widthp + wpsi -1], // diagonal
-                            wps[ri_widthp + wpsi   ] - p.penalty);
+                            wps[ri_widthp + wpsi   ] - settings->penalty);
             if (d < tau) {
                 dtw_prev = delta + delta_factor * dtw_prev;
             } else {
@@ -2390,9 +2390,9 @@ seq_t dtw_warping_paths_affinity_ndim_euclidean(seq_t *wps,
             }
             d = sqrt(d);
             d = exp(-gamma * d);
-            dtw_prev = MAX3(wps[ri_width  + wpsi -1] - p.penalty,
+            dtw_prev = MAX3(wps[ri_width  + wpsi -1] - settings->penalty,
                             wps[ri_widthp + wpsi   ], // diagonal
-                            wps[ri_widthp + wpsi +1] - p.penalty);
+                            wps[ri_widthp + wpsi +1] - settings->penalty);
             if (d < tau) {
                 dtw_prev = delta + delta_factor * dtw_prev;
             } else {
@@ -2451,9 +2451,9 @@ seq_t dtw_warping_paths_affinity_ndim_euclidean(seq_t *wps,
             }
             d = sqrt(d);
             d = exp(-gamma * d);
-            dtw_prev = MAX3(wps[ri_width  + wpsi -1] - p.penalty,
+            dtw_prev = MAX3(wps[ri_width  + wpsi -1] - settings->penalty,
                             wps[ri_widthp + wpsi -1], // diagonal
-                            wps[ri_widthp + wpsi   ] - p.penalty);
+                            wps[ri_widthp + wpsi   ] - settings->penalty);
             if (d < tau) {
                 dtw_prev = delta + delta_factor * dtw_prev;
             } else {
